@@ -443,7 +443,7 @@ theorem old_good_lines_survive_counterexample :
 
 /-- **update_total** (full statement): whatever the URL, the bytes, and whatever zlib and the
 UTF-8 decoder do, `SphinxInventory.update` returns. -/
-theorem update_total (unzip : Bytes → Option Bytes) (decode : Bytes → Option Str)
+theorem update_total (unzip : Bytes → Inflate) (decode : Bytes → Option Str)
     (toInt : Str → Option Int) (st : State) (url : Str) (data : Option Bytes) :
     (update unzip decode toInt st url data).2 = .ok () := by
   unfold update
@@ -464,7 +464,7 @@ theorem update_total (unzip : Bytes → Option Bytes) (decode : Bytes → Option
 
 /-- … and what it leaves in `_links` is the old links updated with the good entries of the
 decoded text; the log grows by the payload errors and one message per rejected line. -/
-theorem update_spec (unzip : Bytes → Option Bytes) (decode : Bytes → Option Str)
+theorem update_spec (unzip : Bytes → Inflate) (decode : Bytes → Option Str)
     (toInt : Str → Option Int) (st : State) (url base : Str) (b : Nat) (bs : Bytes)
     (hb : rsplitSlash url = some base) :
     update unzip decode toInt st url (some (b :: bs)) =
@@ -480,24 +480,20 @@ theorem update_spec (unzip : Bytes → Option Bytes) (decode : Bytes → Option 
     rw [parseLines_spec toInt base _ [] []]
     simp
 
-/-- unusable bytes are reported and skipped: when zlib or the decoder fails, `update` returns,
-`_links` is untouched and exactly one error is logged. -/
-theorem update_unusable_reported (unzip : Bytes → Option Bytes) (decode : Bytes → Option Str)
+/-- **update_unusable_reported** (full strength for what IS unusable now): a stream zlib rejects
+(bad header, invalid data, failed checksum) is reported once and skipped — `update` returns,
+`_links` is untouched, exactly one error is logged, whatever the decoder would do. -/
+theorem update_unusable_reported (unzip : Bytes → Inflate) (decode : Bytes → Option Str)
     (toInt : Str → Option Int) (st : State) (url base : Str) (b : Nat) (bs : Bytes)
     (hb : rsplitSlash url = some base)
-    (hfail : unzip (strippedPayload (b :: bs)) = none ∨
-      ∃ raw, unzip (strippedPayload (b :: bs)) = some raw ∧ decode raw = none) :
-    ∃ msg, update unzip decode toInt st url (some (b :: bs)) =
-      ({ links := st.links, log := st.log ++ [msg] }, .ok ()) := by
-  rcases hfail with hz | ⟨raw, hz, hd⟩
-  · exact ⟨.uncompress base, by
-      simp [update, hb, getPayload, hz, parseInventory, splitlines, parseLines, Dict.update]⟩
-  · exact ⟨.decode base, by
-      simp [update, hb, getPayload, hz, hd, parseInventory, splitlines, parseLines, Dict.update]⟩
+    (hfail : unzip (strippedPayload (b :: bs)) = .rejected) :
+    update unzip decode toInt st url (some (b :: bs)) =
+      ({ links := st.links, log := st.log ++ [.uncompress base] }, .ok ()) := by
+  simp [update, hb, getPayload, hfail, parseInventory, splitlines, parseLines, Dict.update]
 
 -- the formerly aborting inventory `a py:x 1 l -\nb py:x 1` now loads: `a` resolves, `b …` is reported
 example :
-    update (fun _ => some []) (fun _ => some (exGood ++ '\n' :: exAbort)) pyInt ⟨[], []⟩
+    update (fun _ => .done [] true) (fun _ => some (exGood ++ '\n' :: exAbort)) pyInt ⟨[], []⟩
       "h/objects.inv".toList (some [120]) =
     (⟨[(['a'], (['h'], ['l']))], [.badLine exAbort ['h']]⟩, .ok ()) := by decide
 
@@ -1070,7 +1066,7 @@ theorem Dict.get_update_of_get : ∀ (d : Dict) (links : Dict) (k : Str) (v : Li
 /-- **update_latest_wins**: what the most recent successful load says about a name is what the
 reader holds for it afterwards, whatever `_links` held before (and hence, by
 `getLink_after_update`, what every later `getLink` answers until another load redefines it). -/
-theorem update_latest_wins (unzip : Bytes → Option Bytes) (decode : Bytes → Option Str)
+theorem update_latest_wins (unzip : Bytes → Inflate) (decode : Bytes → Option Str)
     (toInt : Str → Option Int) (st : State) (url base : Str) (b : Nat) (bs : Bytes)
     (hb : rsplitSlash url = some base) (name : Str) (v : Link)
     (hdef : (Dict.update [] (goodEntries toInt base
@@ -1080,23 +1076,21 @@ theorem update_latest_wins (unzip : Bytes → Option Bytes) (decode : Bytes → 
   exact Dict.get_update_of_get _ _ _ _ (by simpa using Dict.nodup_update _ [] (by simp)) hdef
 
 /-- a load that fails as a whole leaves every earlier answer in place -/
-theorem failed_update_keeps_links (unzip : Bytes → Option Bytes) (decode : Bytes → Option Str)
+theorem failed_update_keeps_links (unzip : Bytes → Inflate) (decode : Bytes → Option Str)
     (toInt : Str → Option Int) (st : State) (url base : Str) (b : Nat) (bs : Bytes)
     (hb : rsplitSlash url = some base)
-    (hfail : unzip (strippedPayload (b :: bs)) = none ∨
-      ∃ raw, unzip (strippedPayload (b :: bs)) = some raw ∧ decode raw = none) :
+    (hfail : unzip (strippedPayload (b :: bs)) = .rejected) :
     (update unzip decode toInt st url (some (b :: bs))).1.links = st.links := by
-  obtain ⟨msg, h⟩ := update_unusable_reported unzip decode toInt st url base b bs hb hfail
-  rw [h]
+  rw [update_unusable_reported unzip decode toInt st url base b bs hb hfail]
 
 -- non-vacuity (the seeded memoisation scenario): ask `a` (nothing loaded: None), a load that
 -- fails, ask again, the load that defines `a`, ask again → the last answer is the link
 example :
     (runSteps pyInt ⟨[], []⟩
       [.ask ['a'],
-       .upd (fun _ => none) (fun _ => none) "h/objects.inv".toList (some [120]),
+       .upd (fun _ => .rejected) (fun _ => none) "h/objects.inv".toList (some [120]),
        .ask ['a'],
-       .upd (fun _ => some []) (fun _ => some exGood) "h/objects.inv".toList (some [120]),
+       .upd (fun _ => .done [] true) (fun _ => some exGood) "h/objects.inv".toList (some [120]),
        .ask ['a']]).2 =
     [.inr none, .inl (.ok ()), .inr none, .inl (.ok ()), .inr (some "h/l".toList)] := by decide
 
@@ -1462,7 +1456,7 @@ theorem fetch_total (toInt : Str → Option Int) : ∀ (fs : List Fetch) (st : S
         exact hrest st'
 
 /-- a download that fails is reported once and changes nothing else -/
-theorem failed_download_reported (unzip : Bytes → Option Bytes) (decode : Bytes → Option Str)
+theorem failed_download_reported (unzip : Bytes → Inflate) (decode : Bytes → Option Str)
     (toInt : Str → Option Int) (st : State) (url base : Str) (hb : rsplitSlash url = some base) :
     update unzip decode toInt st url none = ({ st with log := st.log ++ [.noData url] }, .ok ()) := by
   simp [update, hb]
@@ -1720,9 +1714,9 @@ theorem collapseAux_no_nl : ∀ (s : Str) (prev : Bool), '\n' ∉ collapseAux pr
 logs nothing — for every compressor/decoder pair honouring their contracts and for EVERY project
 name and version (whitespace in them is collapsed by `_generateHeader` since 2626e70; before that a
 newline broke the header: `old_header_newline_counterexample`). -/
-theorem file_roundtrip (zip : Bytes → Bytes) (unzip : Bytes → Option Bytes) (decode : Bytes → Option Str)
+theorem file_roundtrip (zip : Bytes → Bytes) (unzip : Bytes → Inflate) (decode : Bytes → Option Str)
     (project version url base : Str) (roots : List Tree)
-    (hzip : ∀ c, generateContent roots = .ok c → unzip (zip (encodeUtf8 c)) = some (encodeUtf8 c))
+    (hzip : ∀ c, generateContent roots = .ok c → unzip (zip (encodeUtf8 c)) = .done (encodeUtf8 c) true)
     (hdec : ∀ c, generateContent roots = .ok c → decode (encodeUtf8 c) = some c)
     (hz0 : ∀ c, generateContent roots = .ok c → (zip (encodeUtf8 c)).head? ≠ some 35)
     (hurl : rsplitSlash url = some base)
@@ -1757,11 +1751,11 @@ theorem file_roundtrip (zip : Bytes → Bytes) (unzip : Bytes → Option Bytes) 
 
 -- non-vacuity of the contracts (zlib round trip, UTF-8 round trip, a compressed stream does not
 -- start with '#'): for every forest there are functions satisfying them
-example (roots : List Tree) : ∃ (zip : Bytes → Bytes) (unzip : Bytes → Option Bytes) (decode : Bytes → Option Str),
-    (∀ c, generateContent roots = .ok c → unzip (zip (encodeUtf8 c)) = some (encodeUtf8 c)) ∧
+example (roots : List Tree) : ∃ (zip : Bytes → Bytes) (unzip : Bytes → Inflate) (decode : Bytes → Option Str),
+    (∀ c, generateContent roots = .ok c → unzip (zip (encodeUtf8 c)) = .done (encodeUtf8 c) true) ∧
     (∀ c, generateContent roots = .ok c → decode (encodeUtf8 c) = some c) ∧
     (∀ c, generateContent roots = .ok c → (zip (encodeUtf8 c)).head? ≠ some 35) :=
-  ⟨fun y => 120 :: y, fun y => some y.tail,
+  ⟨fun y => 120 :: y, fun y => .done y.tail true,
    fun _ => match generateContent roots with | .ok c => some c | .raised _ => none,
    by intro c _; simp, by intro c h; simp [h], by intro c _; simp⟩
 
@@ -1776,7 +1770,7 @@ uncompress" for the file pydoctor itself wrote. -/
 theorem old_header_newline_counterexample :
     (match generateFileOld (fun y => 120 :: y) ['a', '\n', 'b'] ['1'] [] with
      | .ok file =>
-       (update (fun y => match y with | 120 :: r => some r | _ => none) (fun _ => some []) pyInt ⟨[], []⟩
+       (update (fun y => match y with | 120 :: r => .done r true | _ => .rejected) (fun _ => some []) pyInt ⟨[], []⟩
           "h/objects.inv".toList (some file)).1 == ⟨[], [.uncompress ['h']]⟩
      | .raised _ => false) = true := by decide +kernel
 
@@ -1784,15 +1778,15 @@ theorem old_header_newline_counterexample :
 example :
     (match generateFile (fun y => 120 :: y) ['a', '\n', 'b'] ['1'] [] with
      | .ok file =>
-       (update (fun y => match y with | 120 :: r => some r | _ => none) (fun _ => some []) pyInt ⟨[], []⟩
+       (update (fun y => match y with | 120 :: r => .done r true | _ => .rejected) (fun _ => some []) pyInt ⟨[], []⟩
           "h/objects.inv".toList (some file)).1 == ⟨[], []⟩
      | .raised _ => false) = true := by decide +kernel
 
 /-- name kept for the manifest: `file_roundtrip` itself is now the statement without the newline
 hypothesis (the header fields are whitespace-collapsed by the code) -/
-theorem file_roundtrip_collapsed (zip : Bytes → Bytes) (unzip : Bytes → Option Bytes) (decode : Bytes → Option Str)
+theorem file_roundtrip_collapsed (zip : Bytes → Bytes) (unzip : Bytes → Inflate) (decode : Bytes → Option Str)
     (project version url base : Str) (roots : List Tree)
-    (hzip : ∀ c, generateContent roots = .ok c → unzip (zip (encodeUtf8 c)) = some (encodeUtf8 c))
+    (hzip : ∀ c, generateContent roots = .ok c → unzip (zip (encodeUtf8 c)) = .done (encodeUtf8 c) true)
     (hdec : ∀ c, generateContent roots = .ok c → decode (encodeUtf8 c) = some c)
     (hz0 : ∀ c, generateContent roots = .ok c → (zip (encodeUtf8 c)).head? ≠ some 35)
     (hurl : rsplitSlash url = some base)
@@ -1833,13 +1827,171 @@ theorem splitters_agree (toks : List Str) (h : ∀ t ∈ toks, OkName t) (hne : 
   have := (h l hl).2 ' ' hmem
   revert this; decide
 
-/-- granularity of compression / encoding failures is the FILE (review items 2, 3): one byte that
-is not UTF-8, or a zlib stream cut short, makes `_getPayload` return '' after one logged error;
-the good lines before and after it are not read.  This is `update_unusable_reported`; here on a
-concrete inventory whose decoder fails. -/
+/-! ## hunter round: what the code does on damaged-but-partly-usable files, and names the format cannot carry -/
+
+/-- the hunter's project: a module named after the file `utils copy 2.py`.  The written line
+`pkg.utils copy 2 py:module -1 …` is read back with the stand-alone `2` as priority: name
+`pkg.utils`, type `copy` — not a Python entry, dropped.  The visible module `pkg.utils copy 2` has
+no entry although its sibling `pkg.utils copy` and its member `pkg.utils copy 2.helper` round-trip
+(open finding `roundtrip:name-with-numeric-token`; `roundtrip` needs `OkName`). -/
+theorem roundtrip_numeric_token_counterexample :
+    (match generateContent [.node "pkg".toList .package false
+        [.node "utils copy 2".toList .module false [.node "helper".toList .function false []],
+         .node "utils copy".toList .module false []]] with
+     | .ok c =>
+       match (parseInventory pyInt ['B'] c).2 with
+       | .ok d => (d.map (·.1)) == ["pkg".toList, "pkg.utils copy 2.helper".toList, "pkg.utils copy".toList]
+       | .raised _ => false
+     | .raised _ => false) = true := by decide +kernel
+
+/-- HISTORICAL (before df39b19, `getPayloadOld`): zlib's or the decoder's failure discarded the whole
+file — whatever usable lines a more careful reader could recover -/
+theorem old_damaged_file_all_or_nothing (unzip : Bytes → Option Bytes) (decode : Bytes → Option Str)
+    (base : Str) (data : Bytes)
+    (hfail : unzip (strippedPayload data) = none ∨
+      ∃ raw, unzip (strippedPayload data) = some raw ∧ decode raw = none) :
+    (getPayloadOld unzip decode base data).2 = [] := by
+  rcases hfail with hz | ⟨raw, hz, hd⟩
+  · simp [getPayloadOld, hz]
+  · simp [getPayloadOld, hz, hd]
+
+/-! ### after df39b19: the usable lines of a damaged-but-trustworthy file are kept -/
+
+theorem dropWhile_append_all {α : Type} (p : α → Bool) : ∀ (l rest : List α), (∀ x ∈ l, p x = true) →
+    (l ++ rest).dropWhile p = rest.dropWhile p
+  | [], _, _ => rfl
+  | x :: l, rest, h => by
+    have hx : p x = true := h x (by simp)
+    simp [List.dropWhile, hx, dropWhile_append_all p l rest (fun y hy => h y (by simp [hy]))]
+
+/-- `cutLastLine` keeps every complete line and drops the cut one -/
+theorem cutLastLine_append (pre tail : Bytes) (h : 10 ∉ tail) :
+    cutLastLine (pre ++ 10 :: tail) = pre ++ [10] := by
+  unfold cutLastLine
+  have hrev : (pre ++ 10 :: tail).reverse = tail.reverse ++ 10 :: pre.reverse := by simp
+  rw [hrev, dropWhile_append_all _ tail.reverse _ (by
+    intro x hx
+    have : x ≠ 10 := fun hc => h (by rw [← hc]; exact List.mem_reverse.mp hx)
+    simpa using this)]
+  simp [List.dropWhile]
+
+/-- … and nothing is left of a payload without a single complete line -/
+theorem cutLastLine_no_newline (b : Bytes) (h : 10 ∉ b) : cutLastLine b = [] := by
+  unfold cutLastLine
+  have := dropWhile_append_all (fun x : Nat => decide (x ≠ 10)) b.reverse [] (by
+    intro x hx
+    have : x ≠ 10 := fun hc => h (by rw [← hc]; exact List.mem_reverse.mp hx)
+    simpa using this)
+  simp only [List.append_nil] at this
+  rw [this]; rfl
+
+theorem getPayload_intact (inflate : Bytes → Inflate) (decode : Bytes → Option Str) (base : Str) (data out : Bytes)
+    (text : Str) (hi : inflate (strippedPayload data) = .done out true) (hd : decode out = some text) :
+    getPayload inflate decode base data = ([], text) := by
+  simp [getPayload, hi, hd]
+
+/-- a stream that ends early: one error, and the text is that of its complete lines -/
+theorem getPayload_truncated (inflate : Bytes → Inflate) (decode : Bytes → Option Str) (base : Str) (data out : Bytes)
+    (text : Str) (hi : inflate (strippedPayload data) = .done out false) (hd : decode (cutLastLine out) = some text) :
+    getPayload inflate decode base data = ([.uncompress base], text) := by
+  simp [getPayload, hi, hd]
+
+/-- a complete stream that is not UTF-8 as a whole: one error, and the lines that decode are kept -/
+theorem getPayload_undecodable (inflate : Bytes → Inflate) (decode : Bytes → Option Str) (base : Str) (data out : Bytes)
+    (hi : inflate (strippedPayload data) = .done out true) (hd : decode out = none) :
+    getPayload inflate decode base data = ([.decode base], joinNL ((splitNL out).filterMap decode)) := by
+  simp [getPayload, hi, hd]
+
+theorem splitlines_nobreak : ∀ (l : Str), (∀ c ∈ l, isLineBreak c = false) →
+    splitlines l = if l = [] then [] else [l]
+  | [], _ => rfl
+  | c :: l, h => by
+    have hc : isLineBreak c = false := h c (by simp)
+    have hcr : c ≠ '\r' := by
+      intro heq; subst heq
+      have : isLineBreak '\r' = true := by decide
+      rw [this] at hc; cases hc
+    have ih := splitlines_nobreak l (fun x hx => h x (by simp [hx]))
+    by_cases hl : l = []
+    · subst hl; simp [splitlines, hcr, hc]
+    · simp [splitlines, hcr, hc, ih, hl]
+
+/-- what `splitlines` makes of `'\n'.join(ls)`: the lines themselves, minus an empty last one -/
+def dropEmptyLast : List Str → List Str
+  | [] => []
+  | [l] => if l = [] then [] else [l]
+  | l :: l' :: ls => l :: dropEmptyLast (l' :: ls)
+
+theorem splitlines_joinNL : ∀ (ls : List Str), (∀ l ∈ ls, ∀ c ∈ l, isLineBreak c = false) →
+    splitlines (joinNL ls) = dropEmptyLast ls
+  | [], _ => by simp [joinNL, splitlines, dropEmptyLast]
+  | [l], h => by
+    simp only [joinNL, List.intercalate_singleton, dropEmptyLast]
+    exact splitlines_nobreak l (h l (by simp))
+  | l :: l' :: ls, h => by
+    have ih := splitlines_joinNL (l' :: ls) (fun x hx => h x (by simp [hx]))
+    have hj : joinNL (l :: l' :: ls) = l ++ '\n' :: joinNL (l' :: ls) := by
+      simp [joinNL, List.intercalate_cons_cons]
+    rw [hj, splitlines_append_nl l _ (h l (by simp)), ih]
+    rfl
+
+theorem parseLine_empty (toInt : Str → Option Int) : parseLine toInt [] = .raised .valueError := by
+  simp [parseLine, pySplitWs, splitWsAux, parseParts, scanPrio]
+
+theorem goodEntries_dropEmptyLast (toInt : Str → Option Int) (base : Str) :
+    ∀ ls : List Str, goodEntries toInt base (dropEmptyLast ls) = goodEntries toInt base ls
+  | [] => rfl
+  | [l] => by
+    by_cases hl : l = []
+    · subst hl; simp [dropEmptyLast, goodEntries, parseLine_empty]
+    · simp [dropEmptyLast, hl]
+  | l :: l' :: ls => by
+    have ih := goodEntries_dropEmptyLast toInt base (l' :: ls)
+    simp only [dropEmptyLast, goodEntries, ih]
+
+/-- **truncated_lines_resolve**: an interrupted download (the stream ends before its end marker) is
+reported, and `_links` receives exactly the good entries of its complete lines — last one wins,
+earlier links kept (`update_latest_wins` then gives: every complete well-formed line resolves) -/
+theorem truncated_lines_resolve (inflate : Bytes → Inflate) (decode : Bytes → Option Str)
+    (toInt : Str → Option Int) (st : State) (url base : Str) (b : Nat) (bs out : Bytes) (text : Str)
+    (hb : rsplitSlash url = some base)
+    (hi : inflate (strippedPayload (b :: bs)) = .done out false)
+    (hd : decode (cutLastLine out) = some text) :
+    update inflate decode toInt st url (some (b :: bs)) =
+      ({ links := st.links.update (Dict.update [] (goodEntries toInt base (splitlines text))),
+         log := st.log ++ [.uncompress base] ++
+           (rejected toInt (splitlines text)).map (fun l => LogMsg.badLine l base) }, .ok ()) := by
+  rw [update_spec inflate decode toInt st url base b bs hb,
+    getPayload_truncated inflate decode base (b :: bs) out text hi hd]
+
+/-- **undecodable_lines_dropped**: a file with lines that are not UTF-8 is reported, the lines that
+decode are kept: `_links` receives exactly the good entries among them (hypothesis: the decoded
+lines hold no other `splitlines` separator, so that they are the lines `_parseInventory` sees) -/
+theorem undecodable_lines_dropped (inflate : Bytes → Inflate) (decode : Bytes → Option Str)
+    (toInt : Str → Option Int) (st : State) (url base : Str) (b : Nat) (bs out : Bytes)
+    (hb : rsplitSlash url = some base)
+    (hi : inflate (strippedPayload (b :: bs)) = .done out true) (hd : decode out = none)
+    (hnb : ∀ l ∈ (splitNL out).filterMap decode, ∀ c ∈ l, isLineBreak c = false) :
+    (update inflate decode toInt st url (some (b :: bs))).1.links =
+      st.links.update (Dict.update [] (goodEntries toInt base ((splitNL out).filterMap decode))) ∧
+    (update inflate decode toInt st url (some (b :: bs))).2 = .ok () := by
+  rw [update_spec inflate decode toInt st url base b bs hb,
+    getPayload_undecodable inflate decode base (b :: bs) out hi hd]
+  simp only [splitlines_joinNL _ hnb, goodEntries_dropEmptyLast, and_self]
+
+-- the hunter's shapes on the concrete decoder: a Latin-1 byte in the middle line, then an interrupted download
 example :
-    update (fun _ => some []) (fun _ => none) pyInt ⟨[(['k'], (['b'], ['l']))], []⟩
-      "h/objects.inv".toList (some [120]) =
-    (⟨[(['k'], (['b'], ['l']))], [.decode ['h']]⟩, .ok ()) := by decide
+    update (fun _ => .done (encodeUtf8 "a py:x 1 l -\n".toList ++ [0x50, 0xE9, 10] ++ encodeUtf8 "b py:x 1 m -\n".toList) true)
+      utf8Decode pyInt ⟨[], []⟩ "h/objects.inv".toList (some [120]) =
+    (⟨[(['a'], (['h'], ['l'])), (['b'], (['h'], ['m']))], [.decode ['h']]⟩, .ok ()) := by decide +kernel
+
+example :
+    update (fun _ => .done (encodeUtf8 "a py:x 1 l -\nb py:x 1 m".toList) false)
+      utf8Decode pyInt ⟨[], []⟩ "h/objects.inv".toList (some [120]) =
+    (⟨[(['a'], (['h'], ['l']))], [.uncompress ['h']]⟩, .ok ()) := by decide +kernel
+
+example : utf8Decode (encodeUtf8 "aé名😀".toList) = some "aé名😀".toList ∧ utf8Decode [0xC0, 0x80] = none ∧
+    utf8Decode [0xED, 0xA0, 0x80] = none ∧ utf8Decode [0xE9] = none ∧ utf8Decode [0xF4, 0x90, 0x80, 0x80] = none := by
+  decide +kernel
 
 end Inventory
